@@ -22,7 +22,7 @@ ALL_STATES = ["geo1:" + c for c in CORR1] + ["geo2:" + c for c in CORR2] + ["tab
                                                                                  "single names (row table)", "single names (list)", "single names (array)", "optional sheets all omitted",
                                                                                  "optional sheets all present", "constraints used", "constraints sheet omitted"]
 ALL_STATES += ["mapping table with a purely numeric x or y column", "surface patches read back", "malformed tables given as arguments", "removed name is a substring of another cell", "sign table with row labels other than the points' labels"]
-REQUIRED_STATES = list(ALL_STATES)
+REQUIRED_STATES = list(ALL_STATES) + ["unknown sheet is a documented sheet name typed with other capitals / a stray blank", "sensors not aligned with a global axis (non-integer direction cosines)"]
 RULE = ("sensor sets of 1..12 names; coordinate/direction tables with rows permuted against the name order; mapping tables whose cells are sensor names, constraint "
         "names or 0/NaN; constraint matrices; sign tables in {-1,0,1}; one-based line/surface tables; optional sheets present/absent in every combination; "
         "single-setup name forms (row table, list, array) and multi-setup forms (padded table, list of lists) on real SingleSetup / MultiSetup_PreGER "
@@ -97,6 +97,14 @@ def tables1(rng, flat, optional):
     rng.shuffle(labels)
     coord = pd.DataFrame(rng.integers(-9, 10, (len(labels), 3)).astype(float) + rng.random((len(labels), 3)).round(2), index=pd.Index(labels, name="label"), columns=["x", "y", "z"])
     dirs = pd.DataFrame(rng.integers(-1, 2, (len(labels), 3)).astype(float), index=pd.Index(labels, name="label"), columns=["x", "y", "z"])
+    tables1.inclined = False
+    if rng.random() < 0.4:
+        # sensors that are not aligned with a global axis: direction cosines such as (0.6, 0.8, 0) or 0.7071
+        for r_ in range(len(labels)):
+            if rng.random() < 0.5:
+                v_ = [(0.6, 0.8, 0.0), (0.0, -0.6, 0.8), (0.7071, 0.0, -0.7071), (1.0, 0.3, 0.0)][int(rng.integers(0, 4))] if rng.random() < 0.6 else tuple(np.round(rng.uniform(-1, 1, 3), 4))
+                dirs.iloc[r_] = v_
+                tables1.inclined = True
     d = {"sensors coordinates": coord, "sensors directions": dirs}
     opt = {}
     if n >= 2:
@@ -183,6 +191,8 @@ def check_geo1(ctx, tag, sig, geo, flat, src):
         return
     exp_c = src["sensors coordinates"].loc[flat].to_numpy(float)
     exp_d = src["sensors directions"].loc[flat].to_numpy(float)
+    if np.any(exp_d != np.round(exp_d)):
+        ctx.state("sensors not aligned with a global axis (non-integer direction cosines)")
     got_c = geo.sens_coord.to_numpy(float) if isinstance(geo.sens_coord, pd.DataFrame) else np.asarray(geo.sens_coord, float)
     ok_idx = (not isinstance(geo.sens_coord, pd.DataFrame)) or list(geo.sens_coord.index) == list(flat)
     ctx.check(got_c.shape == exp_c.shape and np.array_equal(got_c, exp_c) and ok_idx, f"{sig}:coordinates_not_aligned_to_sensor_order",
@@ -342,7 +352,18 @@ def corrupt(rng, which, name, tabs, flat, names_tab):
     if name.startswith("missing "):
         d.pop(name[len("missing "):])
     elif name == "unknown sheet":
-        d["foo"] = pd.DataFrame([[1]])
+        # any name that is not one of the documented sheet names - also a documented name typed with other capitals or a stray blank, whose table
+        # would otherwise be ignored without a word
+        opts = ["foo", "SENSORS LINES", "sensors lines ", "Bg Nodes", " BG lines", "bg surfaces"] + (["Sensors sign", "sensors sign "] if which == 2 else [])
+        key = opts[int(rng.integers(0, len(opts)))]
+        if getattr(corrupt, "mistype", False):
+            key = opts[1 + int(rng.integers(0, len(opts) - 1))]
+        base_ = {k_.strip().casefold(): k_ for k_ in d}.get(key.strip().casefold())
+        d[key] = d[base_].copy() if base_ is not None and key != "foo" else pd.DataFrame([[1]])
+        if base_ is not None and key != "foo" and rng.random() < 0.5:
+            d.pop(base_)  # the mistyped sheet instead of the right one
+        if key != "foo":
+            corrupt.note = "unknown sheet is a documented sheet name typed with other capitals / a stray blank"
     elif name == "coordinates 2 columns":
         d["sensors coordinates"] = d["sensors coordinates"].iloc[:, :2]
     elif name == "directions 2 columns":
@@ -409,6 +430,7 @@ def run_corrupt(ctx, case, rng, which):
             ctx.not_judged("no free mapping cell for a constraint")
             return
     corrupt.note = None
+    corrupt.mistype = name == "unknown sheet" and (case["k"] // len(names_list)) % 2 == 0
     bad = corrupt(rng, which, name, tabs, flat, names_tab)
     if corrupt.note:
         ctx.state(corrupt.note)
